@@ -329,15 +329,33 @@ def check_hexsim(ck):
             if not ok: ck.violation(f"hexsim:{why[:50]}", f"hexsim {' '.join(argv[1:])}: stages {oc}: {why}", None)
         ck.engine(E, 'main of hexsim.cpp: ' + ' '.join(argv[1:]))
 
+def hexasm_rejections(ck):
+    """every way hexasm rejects a program after parsing: the exception must come before the output file is opened"""
+    import layrun
+    from laylib import K_LABEL, K_DATA, K_IMM, K_REL, K_ABS, K_OPR, K_FUNC
+    shapes = [
+        [(K_REL, 'BR', 0)],                                                        # unknown label (relative)
+        [(K_ABS, 'LDAM', 0)],                                                      # unknown label (absolute)
+        [(K_OPR, 'ADD', 0), (K_LABEL, None, 0), (K_ABS, 'LDAM', 0)],               # absolute reference to a label at byte 1
+        [(K_IMM, 'LDAC', None), (K_LABEL, None, 0), (K_ABS, 'LDBC', 0)],           # ... at a symbolic byte offset 1..8
+        [(K_ABS, 'STAM', 0), (K_OPR, 'ADD', 0), (K_LABEL, None, 0), (K_OPR, 'SVC', 0)],   # forward, unaligned
+        [(K_LABEL, None, 0), (K_DATA, None, None), (K_ABS, 'LDAM', 0), (K_REL, 'BR', 1)], # good reference, then an unknown label
+        [(K_OPR, 'LDAM', 0)],                                                      # invalid OPR operand
+        [(K_LABEL, None, 0), (K_DATA, None, None), (K_ABS, 'LDAM', 0)],            # accepted (control)
+    ]
+    layrun.run_family(ck, 'C14', only=shapes)
+
 def main():
     ck = Check('C14', 'other')
     check_hexasm(ck); check_xcmp(ck, 'xcmp'); check_xcmp(ck, 'xrun'); check_hexsim(ck)
     check_xcmp_deep(ck, 'xcmp')
+    hexasm_rejections(ck)
     ck.assume("the four main() functions are executed from their IR with C++ exception handling modelled; the library stages they call (Lexer::openFile, Parser::parseProgram, hexasm::CodeGen, emitBin, "
               "xcmp::Driver::run, hexsim::Processor::load/run) are cut to an outcome chosen by the engine: returns / throws hexutil::Error / throws std::runtime_error; Processor::run's value is a 32-bit symbol",
               "argv shapes are enumerated (file only; -o/--output before and after the file; -o last; two files; unknown option; listing modes); the solver's share is the outcome vector and the exit value",
               "xcmp::Driver::run is additionally executed itself with its inner stages (openFile, parseProgram, every AST pass, LowerDirectives, OptimiseDirectives, hexasm::CodeGen, emitBin) cut to outcomes and every stream constructor/open an event: no file is created unless all stages succeeded",
-              "what emitBin does with its file (creation, truncation) is decided in C10 ('partial-output'); truncation of the status to 8 bits by the host is outside",
+              "hexasm's own rejections after parsing (unknown label, absolute reference to an unaligned label, invalid OPR operand) run through the real directive constructors, CodeGen and emitBin with the "
+              "file stream an event sink: on every path that throws, no output file has been created or truncated (also decided in C10 as 'partial-output'); truncation of the status to 8 bits by the host is outside",
               "diagnostic text (boost::format, operator<<) is cut: that something is printed is an event, its wording is outside")
     ck.crosscheck()
     ck.finish("Control- and data-flow of the four mains under every combination of stage outcomes and argv shape: exit status 0 iff no stage failed and the usage is valid, the file name given with -o "
